@@ -190,6 +190,11 @@ func ewExec(r *core.Run, c ewCase) (*core.Fail, string) {
 			return nil, "skip:" + c.layB
 		}
 	}
+	for _, x := range []*atlas.Built{A, B} {
+		if x != nil {
+			r.State(x.DT.Name + "|" + atlas.StateKey(x.T, atlas.RootPtr(x.Root)))
+		}
+	}
 	// model
 	want := make([]ref.Res, n)
 	for i := 0; i < n; i++ {
@@ -226,8 +231,8 @@ func ewExec(r *core.Run, c ewCase) (*core.Fail, string) {
 	}
 	// result element type
 	resDT := d
-	if c.kind == "cmp" && !same && mode != "unsafe" {
-		resDT = ref.Bool
+	if c.kind == "cmp" && !same && mode != "unsafe" && mode != "reuse=a" && mode != "reuse=b" {
+		resDT = ref.Bool // in place (unsafe, or a reuse tensor that is an operand) the result has the operand type
 	}
 	// destination
 	var opts []tensor.FuncOpt
@@ -242,6 +247,8 @@ func ewExec(r *core.Run, c ewCase) (*core.Fail, string) {
 	case mode == "unsafe":
 		opts = append(opts, tensor.UseUnsafe())
 		dest = tensorOperand
+	case (mode == "reuse=a" && A == nil) || (mode == "reuse=b" && B == nil):
+		return nil, "skip:reuse-operand-absent"
 	case mode == "reuse=a":
 		dest = A
 		opts = append(opts, tensor.WithReuse(A.T))
@@ -391,10 +398,22 @@ func ewExec(r *core.Run, c ewCase) (*core.Fail, string) {
 			return nil, "refused-unjudged"
 		}
 		if c.strict || (dest == nil || mode == "unsafe") {
-			return core.F("unexpected-refusal", "x", "%s refused: %s", c.op, o), o.Class
+			tag := ""
+			if (c.op == "MinBetween" || c.op == "MaxBetween") && mode == "unsafe" && o.Class == "panic" && fmt.Sprint(o.Panic) == "Unreachable" {
+				tag = "[KF:minmax-unsafe-unreachable]"
+			}
+			return core.F("unexpected-refusal"+tag, "x", "%s refused: %s", c.op, o), o.Class
 		}
-		// option modes on exotic destinations: a refusal that changed nothing outside is recorded, and judged by the caller
-		return core.F("unexpected-refusal[dest]", "x", "%s with mode %s refused: %s", c.op, mode, o), o.Class
+		// option modes on exotic destinations: a refusal that changed nothing outside
+		tag := ""
+		if dest != nil && o.Class == "err" {
+			if m := tensor.VerifMetaOf(dest.T); m.ElSize > 0 && m.RawLen/m.ElSize != n {
+				// precondition of F-C07-view-destination-refused: the destination's storage window holds more
+				// elements than the destination has (a non-contiguous view)
+				tag = "[KF:view-destination-refused]"
+			}
+		}
+		return core.F("unexpected-refusal[dest]"+tag, "x", "%s with mode %s refused: %s", c.op, mode, o), o.Class
 	}
 	if wrongSize {
 		return core.F("accepted-invalid", "ws", "reuse/incr tensor of the wrong size was accepted"), o.Class
@@ -461,7 +480,7 @@ func ewExec(r *core.Run, c ewCase) (*core.Fail, string) {
 	if len(got) != n {
 		return core.F("wrong-shape", "n", "result has %d elements, expected %d", len(got), n), o.Class
 	}
-	kfDivZero := false
+	kfDivZero, kfReuseB, kfMinMaxIncr := false, false, false
 	defer func() { _ = kfDivZero }()
 	for i := 0; i < n; i++ {
 		w := want[i]
@@ -477,6 +496,7 @@ func ewExec(r *core.Run, c ewCase) (*core.Fail, string) {
 			}
 		}
 		approx := w.Approx
+		plain := exp
 		if incr {
 			ri := ref.Arith("Add", destOld[i], exp)
 			if ri.Skip || ri.Refuse {
@@ -509,12 +529,39 @@ func ewExec(r *core.Run, c ewCase) (*core.Fail, string) {
 				}
 			}
 		}
+		if !okv && incr && (c.op == "MinBetween" || c.op == "MaxBetween") && ref.Same(got[i], plain) {
+			kfMinMaxIncr = true // DEFECT model of F-C07-minmax-incr-overwrites: the increment tensor is overwritten with the result
+			continue
+		}
+		if !okv && mode == "reuse=b" && c.form == "TT" {
+			// DEFECT model of F-C07-reuse-aliases-b: on the iterator path a is first copied into the reuse tensor (== b),
+			// then the operation is applied to (reuse, b): the result is op(a, a)
+			var alt ref.Res
+			if c.kind == "cmp" {
+				alt = ref.Compare(c.op, av[i], av[i])
+				if !alt.Refuse {
+					alt.V = ref.BoolAs(resDT, alt.V.(bool))
+				}
+			} else {
+				alt = ref.Arith(c.op, av[i], av[i])
+			}
+			if !alt.Refuse && !alt.Skip && (ref.Same(got[i], alt.V) || ref.Close(got[i], alt.V)) {
+				kfReuseB = true
+				continue
+			}
+		}
 		if !okv {
 			if kfDivZero {
 				kfDivZero = false
 			}
 			return core.F("wrong-value", fmt.Sprintf("el%d", i), "element %d: got %s, expected %s (a=%s b=%s scalar=%s) all got %s", i, ref.Fmt(got[i]), ref.Fmt(exp), elOr(av, i, needA), elOr(bv, i, needB), ref.Fmt(sv), ref.FmtEls(got)), o.Class
 		}
+	}
+	if kfMinMaxIncr {
+		return core.F("wrong-value[KF:minmax-incr-overwrites]", "mi", "%s with an increment tensor overwrites it with the result instead of adding to it. got %s", c.op, ref.FmtEls(got)), o.Class
+	}
+	if kfReuseB {
+		return core.F("wrong-value[KF:reuse-aliases-b]", "rb", "reuse tensor == operand b on the iterator path: every deviating element equals op(a,a). got %s", ref.FmtEls(got)), o.Class
 	}
 	if kfDivZero {
 		return core.F("wrong-value[KF:vecf-div-zero]", "dz", "float division by a zero divisor yields +Inf regardless of the signs / 0/0 (contiguous kernel); all other elements are correct. got %s", ref.FmtEls(got)), o.Class
